@@ -22,7 +22,9 @@ OUTSIDE = ["sources other than the C12 case family and <= 3 (4 thorough) pieces 
 ASSUMPTIONS = ["line breaks are \\n, \\r\\n, \\r (normalised before lexing as documented)"]
 
 PIECES = ["x", "\n", " ", "  \n", "{{ 1 +\n 2 }}", "{# a\nb #}", "{% raw %}\n r \n{% endraw %}", "{%- set a = 1 -%}", "{% if 1 %}y{% endif %}",
-          "\r\n", "{{-\n 'v' }}", "\r", "{#- c\r\nd -#}", "{%+ set b = 2 %}\n", "{% set s %}\n z\n{% endset %}", "\t{% set t = 3 %}"]
+          "\r\n", "{{-\n 'v' }}", "\r", "{#- c\r\nd -#}", "{%+ set b = 2 %}\n", "{% set s %}\n z\n{% endset %}", "\t{% set t = 3 %}",
+          # tags that contain line breaks themselves (a raw opening tag is one token)
+          "{% raw -%}\n\n r{% endraw %}", "{%\n raw\n%}q{%- endraw\n -%}\n", "{%-\n if 1\n -%}\n w{% endif %}", "{{\n 2\n}}"]
 LPIECES = ["x\n", "# for i in [1]\n", "  # endfor\n", "## a comment\n", "y ## trailing comment\n", "\n", "{{ 1 }}\n", "# set q = [1,\n   2]\n", "  ", "{# c #}\n"]
 P = {}
 ENV = None
@@ -102,6 +104,43 @@ def source_ok(src):
     return all(t.lineno in raw_lines for t in wrapped)
 
 
+# ---------------------------------------------------------------- lex() of an overlay follows the overlay's own options
+OV_OPTS = [dict(keep_trailing_newline=True), dict(lstrip_blocks=True), dict(trim_blocks=True), dict(variable_start_string="${", variable_end_string="}"),
+           dict(block_start_string="<%", block_end_string="%>"), dict(line_statement_prefix="%"), dict(comment_start_string="<!--", comment_end_string="-->"),
+           dict(newline_sequence="\r\n"), dict(line_comment_prefix="//")]
+OV_SRC = ["a\n  {% if 1 %}\n{{ x }}\n{% endif %}\n", "  <% if 1 %>\n${ x } {{ y }}<% endif %>\n", "% set z = 1\n  {# c #} <!-- d -->\n// e\nt\n"]
+
+
+def overlay_lex_ok(opt: int, src: int, used: bool, chain: bool) -> bool:
+    """
+    pre: 0 <= opt < len(OV_OPTS) and 0 <= src < len(OV_SRC)
+    post: _
+    """
+    from vfw.core import pickb
+    o = OV_OPTS[pick(opt, len(OV_OPTS))]
+    text = OV_SRC[pick(src, len(OV_SRC))]
+    used = pickb(used)
+    chain = pickb(chain)
+    with NoTracing():
+        from jinja2.exceptions import TemplateSyntaxError
+        base = Environment()
+        if used:
+            list(base.lex("{{ warm }}"))          # the parent has lexed before the overlay is made
+        ov = base.overlay(**o)
+        if chain:
+            list(ov.lex("x"))
+            ov = ov.overlay(keep_trailing_newline=not ov.keep_trailing_newline)
+            o = dict(o, keep_trailing_newline=ov.keep_trailing_newline)
+        ref = Environment(**o)
+
+        def toks(e):
+            try:
+                return ("ok", list(e.lex(text)))
+            except TemplateSyntaxError as ex:
+                return ("syntax", ex.lineno)
+        return toks(ov) == toks(ref) and toks(base) == toks(Environment())
+
+
 def conditions(tier, seed):
     th = tier == "thorough"
     to = 200 if th else 50
@@ -127,4 +166,7 @@ def conditions(tier, seed):
                         param={"trim": trim, "lstrip": lstrip, "line": True, "maxp": 3}, timeout=to * 2,
                         witnesses=[[[1, 0, 2]], [[3, 4]], [[7, 6]]],
                         bounds=f"1..3 pieces from a {len(LPIECES)}-entry table of line statements / line comments"))
+    out.append(Cond("lex() through overlays", "overlay_lex_ok", mode="B", param={}, timeout=to,
+                    witnesses=[[0, 0, True, False], [3, 1, True, True], [5, 2, False, False], [1, 0, True, True]],
+                    bounds=f"{len(OV_OPTS)} single-option overlays x {len(OV_SRC)} sources x parent used before / not x overlay of an overlay; token stream == that of a fresh environment with the same options"))
     return out
